@@ -99,7 +99,7 @@ func c18Sess(kv map[string]string) string {
 		case err != nil:
 			if te, ok := err.(*tErr); ok {
 				res = "err." + te.Error()
-			} else if strings.HasPrefix(err.Error(), "no plugins") {
+			} else if isLookupErr(err) {
 				res = "noentry"
 			} else {
 				res = "err.other:" + drv.Clean(err.Error())
@@ -384,9 +384,15 @@ func sessGen(r *rand.Rand, n int) []string {
 					cfg = 'n'
 				}
 				ops = append(ops, fmt.Sprintf("F:%d:%s:%d:%d:%s", k.t, k.name, r.Intn(2), r.Intn(2), user(cfg)))
-				made++
+				if ok {
+					made++ // (an estimate: the creation may still fail)
+				}
 			case x < 18:
-				ops = append(ops, fmt.Sprintf("C:%d", r.Intn(made+1)))
+				h := r.Intn(made + 1) // sometimes one past the end
+				if made > 0 && r.Intn(8) != 0 {
+					h = r.Intn(made)
+				}
+				ops = append(ops, fmt.Sprintf("C:%d", h))
 			case x < 19:
 				ops = append(ops, fmt.Sprintf("L:%d", r.Intn(3)))
 			default:
@@ -396,4 +402,16 @@ func sessGen(r *rand.Rand, n int) []string {
 		out = append(out, "sess=1 ops="+strings.Join(ops, "|"))
 	}
 	return out
+}
+
+// isLookupErr: the error result of Registry.get (recognised by its wording, not by its exact text)
+func isLookupErr(err error) bool {
+	if err == nil {
+		return false
+	}
+	if _, ours := err.(*tErr); ours {
+		return false
+	}
+	m := strings.ToLower(err.Error())
+	return strings.Contains(m, "no plugin") || strings.Contains(m, "registered")
 }
